@@ -411,12 +411,79 @@ def r149(ctx, fx):
                     "same buffers would show none", pub.where)
 
 
+# fields of LspContext that are not a function of the buffers, one line of reason each; every other field has to be re-derived by perform_codegen
+NOT_DERIVED = {
+    "connection": "the transport, set once when the server starts listening",
+    "parsing_source": "the buffers themselves — the state a freshly started server is given",
+    "files_with_diagnostics": "what the client was last told (R14.9): compared against when publishing, never answered from",
+    "shutdown_manager": "shutdown handlers of the process",
+    "responses": "test-only record of what was sent",
+}
+
+
+def r1410(ctx, fx):
+    rid = ctx.rule("R14.10", "the server's state is the buffers plus what perform_codegen derives from them: every field of LspContext outside the table of transport / "
+                   "buffer / bookkeeping fields is assigned on every path through perform_codegen before its first early return (so nothing computed under an "
+                   "older buffer state survives a change), and no RequestHandler::handle stores into a field of LspContext that perform_codegen does not reset — "
+                   "answers kept between requests (a cache) outlive the analysis they were computed from")
+    pc = fx.fn(LC + "::perform_codegen")
+    adt = fx.adts.get(LC)
+    if pc is None or adt is None:
+        ctx.fail_closed(rid, "LspContext / perform_codegen not found")
+        return
+    fields = [x.get("name") for v in adt.get("variants", []) for x in v.get("fields", [])]
+    if len(fields) < 6:
+        ctx.fail_closed(rid, "LspContext has %d fields, 7 were counted" % len(fields))
+        return
+    rets = lib.return_blocks(pc)
+    rederived = set()
+    for fld in fields:
+        k = "LspContext|%s" % fld
+        if fld in NOT_DERIVED:
+            ctx.inst(rid, k, sample={"field": fld, "class": "not derived", "reason": NOT_DERIVED[fld]}, nontrivial=False)
+            continue
+        blocks = [bi for bi, si, st in lib.stmts(pc) if st["k"] == "assign" and lib.place_fields(st["dst"])[:1] == [fld]]
+        blocks += [bi for bi, t in lib.calls(pc) if lib.place_fields(t["dst"])[:1] == [fld]]
+        # … or emptied in place: `self.<field>.clear()`
+        blocks += [bi for of, n, kind, bi, _ in lib.writes_of(pc) if of == LC and n == fld and kind == "mutborrow" and
+                   pc.blocks[bi]["term"]["k"] == "call" and str(lib.callee(pc.blocks[bi]["term"])[0]).endswith("::clear")]
+        ok = bool(blocks) and all(lib.must_pass(pc, blocks, r) for r in rets)
+        if ok:
+            rederived.add(fld)
+        ctx.inst(rid, k, sample={"field": fld, "class": "derived", "reset_on_every_path_of_perform_codegen": ok})
+        if not ok and fld not in ("tree", "codegen", "error"):      # those three are reported by R14.1
+            ctx.finding(rid, k, "LspContext.%s is state that perform_codegen does not re-derive on every path: what is stored there under one buffer state is still "
+                        "there after the buffers changed, and a freshly started server would not have it" % fld, pc.where)
+    n = 0
+    seen = {}
+    for f in sorted(fx.all_fns("mos"), key=lambda f: f.path):
+        if "::tests::" in f.path or not f.blocks:
+            continue
+        owner = f
+        while owner.kind == "closure" and owner.d.get("parent") in fx.fns:
+            owner = fx.fns[owner.d["parent"]]
+        if owner.d.get("impl_trait") != "mos::lsp::traits::RequestHandler" or not owner.path.endswith("::handle"):
+            continue
+        n += 1
+        w = sorted({fn for of, fn, kind, _, _ in lib.writes_of(f) if of == LC})
+        k = "%s|stores" % owner.path
+        ctx.inst(rid, k, sample={"handler": owner.d.get("impl_self"), "fields_stored": w}, nontrivial=bool(w))
+        for fld in w:
+            if fld in rederived:
+                continue        # filled lazily, emptied with every change of the buffers: still a function of the buffers
+            ctx.finding(rid, "%s|%s" % (k, fld), "the request handler %s stores into LspContext.%s: a later request is answered from what an earlier one left there" % (
+                (owner.d.get("impl_self") or owner.path).rsplit("::", 1)[-1], fld), f.where)
+    if n < 10:
+        ctx.fail_closed(rid, "fewer than 10 request handler bodies found (%d)" % n)
+
+
 def run(ctx):
     fx = ctx.facts
     cg = lib.CallGraph(fx)
     r141(ctx, fx, cg)
     r148(ctx, fx)
     r149(ctx, fx)
+    r1410(ctx, fx)
     r146(ctx, fx)
     r142(ctx, fx)
     r143(ctx, fx)
